@@ -206,12 +206,11 @@ class LogPaxosWorld(NetWorld):
                           f"(ballot {self.ballot_of(nd)})"))
 
     def conflict_shape(self, s=None, nd=None):
-        facts = []
         if sum(self.starts.values()) > 1:
-            facts.append("takeover")
+            return "takeover"  # a second leader attempt happened
         if "ooo-accept" in self.flags:
-            facts.append("out-of-order-accept")
-        return "+".join(facts) or "single-leader-in-order"
+            return "single-leader-out-of-order-accept"  # an Accept overtook the Accept of an earlier slot
+        return "single-leader-in-order"
 
     def conflict(self):
         return self.conf or sum(self.starts.values()) > 1 or "ooo-accept" in self.flags
